@@ -189,10 +189,30 @@ def execute(case):
         targets, validators, run = _site(case["site"], d, case["kind"])
         if len(targets) != case["nt"]:
             raise core.MachineryError("site %s: %d targets in harness, %d in model" % (case["site"], len(targets), case["nt"]))
+        import zlib
+        hk = zlib.crc32(repr(_key(case)).encode())
+        junk = b"" if hk % 3 == 0 else JUNK        # the pre-existing file may be empty: it exists all the same
+        if hk % 2 == 0 and any(case["ex"]):
+            # history: the same paths were already written once by this process, confirmed with 'y' - nothing may be remembered
+            for t, e in zip(targets, case["ex"]):
+                if e:
+                    with open(t, "wb") as f:
+                        f.write(JUNK)
+            try:
+                if case["site"].startswith("lib_"):
+                    with cli.prompting(["y"] * 8, lambda p: None):
+                        run(True)
+                else:
+                    run(True, ["y"] * 8, lambda p: None)
+            except Exception:  # noqa: BLE001
+                pass
+            for t in targets:
+                if os.path.exists(t):
+                    os.remove(t)
         for t, e in zip(targets, case["ex"]):
             if e:
                 with open(t, "wb") as f:
-                    f.write(JUNK)
+                    f.write(junk)
         before = [_h(t) for t in targets]
         prompts = []
 
